@@ -1,10 +1,26 @@
 import Tahoe.Storage.LemmasSlot
+import Tahoe.Storage.LemmasLeaseBucket
 /-!
 C24 — read-test-write is atomic and guarded by the write enabler (property theorems).
 
 Model: `Tahoe/Storage/Slot.lean` `rtw` = `StorageServer.slot_testv_and_readv_and_writev`.
 `env.precheck = true` is the REPAIRED server (fixes/C24-precheck.diff); the unchanged tree is
 `env.precheck = false`, for which `all_or_nothing` is FALSE (`all_or_nothing_counterexample`).
+
+Coverage of the statement (properties.jsonl C24), clause → theorem(s):
+* "a request either applies all of its writes, to every share it names, or none" → `all_or_nothing` (repaired server,
+      any well-formed bucket); exact form `request_level_decision`; FALSE for the unchanged tree:
+      `all_or_nothing_counterexample` (kernel-evaluated), `counterexample_repaired`
+* "it applies none if any test fails" → `failed_test_no_effect`, `request_level_decision` (tests of ALL entries on the
+      pre-state, absent shares as empty: `absent_share_tests_count`)
+* "… or if the write enabler does not match every existing share of that storage index" → `bad_enabler_no_effect`
+      (any share of the bucket, named or not)
+* "its read results always reflect the data before the request" → `reads_are_pre_state`
+* shares not named by the request are untouched by its writes → `unnamed_shares_untouched_by_writes` (write phase;
+      the lease phase only visits named shares — by construction of `rem`, not stated as a theorem)
+* write vectors applied in the order given → C23 `write_vectors_in_order` + `request_level_decision` (`Spec.evalWrites`)
+* not covered: `NoSpace` / `struct.error` raised by the lease renewal AFTER the writes (all writes are applied then;
+  stated in `all_or_nothing`); directory-listing order (only which error is reported depends on it).
 -/
 namespace Tahoe.C24
 open Tahoe.Base.File Tahoe.Storage Tahoe.Storage.Mutable Tahoe.Storage.Slot
@@ -110,6 +126,64 @@ theorem all_or_nothing (env : Env) (hfix : env.precheck = true) (b : Bucket) (hb
           exact ⟨a1, by simp, by simp, by simp⟩
       · simp [hs]
     · simp [hg]
+
+/-- **request-level decision** (repaired server; enabler accepted, sizes admissible): ALL test vectors of ALL entries
+    of the request are evaluated on the byte arrays as they are BEFORE the request — a share the server does not
+    hold counting as the empty array (`Spec.dataOf`) —; if any fails, nothing at all changes and the answer is
+    `(False, pre-state reads)`; if all pass, the share data afterwards are exactly the specification's result of
+    applying every entry in request order and every write vector in vector order (`Spec.evalWrites`,
+    `Spec.writeAll` is a left fold), and the answer is `(True, pre-state reads)` or an error of the lease renewal
+    that follows the writes -/
+theorem request_level_decision (env : Env) (hfix : env.precheck = true) (b : Bucket) (hb : BucketWF b)
+    (we renew cancel : Bytes) (tw : List (Nat × TW)) (rv : List (Nat × Nat)) (rl : Bool)
+    (hc : collect b we = none) (hs : sizesOk tw = true) :
+    (Spec.evalTests (absBucket b) tw = false →
+      (rtw env b we renew cancel tw rv rl).bucket = b ∧
+      (rtw env b we renew cancel tw rv rl).out = .ok (false, Spec.evalReads (absBucket b) rv)) ∧
+    (Spec.evalTests (absBucket b) tw = true →
+      absBucket (rtw env b we renew cancel tw rv rl).bucket = Spec.evalWrites (absBucket b) tw ∧
+      ((rtw env b we renew cancel tw rv rl).out = .ok (true, Spec.evalReads (absBucket b) rv) ∨
+       ∃ e, (rtw env b we renew cancel tw rv rl).out = .error e)) := by
+  refine ⟨fun hf => failed_test_no_effect env b we renew cancel tw rv rl hc hf, ?_⟩
+  intro hp
+  rw [← evalTests_eq] at hp
+  unfold rtw
+  simp only [hc, hp, Bool.not_true, Bool.false_eq_true, if_false, hfix, Bool.true_and, hs, evalReads_eq]
+  obtain ⟨b1, rem, e, w1, a1⟩ := evalWrites_ok env.nodeid we tw b [] hb ((sizesOk_iff _).mp hs)
+  simp only [e]
+  by_cases hr : rl
+  · simp only [hr, Bool.not_true, Bool.false_eq_true, if_false]
+    have ha := (renewShares_abs env (makeLease env renew cancel) rem b1 w1).2
+    generalize renewShares env (makeLease env renew cancel) b1 rem = r at *
+    obtain ⟨b2, e2⟩ := r
+    cases e2 with
+    | some e2 => exact ⟨ha.trans a1, Or.inr ⟨e2, rfl⟩⟩
+    | none => exact ⟨ha.trans a1, by simp⟩
+  · simp only [hr, Bool.not_false, if_true]
+    exact ⟨a1, by simp⟩
+
+/-- test vectors of a share the server does NOT hold are evaluated too (against the empty array): an entry for an
+    absent share with a non-empty specimen makes the whole request fail, so — by `failed_test_no_effect` — none of
+    its writes, to any share, is applied -/
+theorem absent_share_tests_count (b : Bucket) (tw : List (Nat × TW)) (n : Nat) (t : TW) (hmem : (n, t) ∈ tw)
+    (habs : lookup b n = none) (o l : Nat) (spec : Bytes) (hv : (o, l, spec) ∈ t.testv) (hne : spec ≠ []) :
+    Spec.evalTests (absBucket b) tw = false := by
+  unfold Spec.evalTests
+  rw [List.all_eq_false]
+  refine ⟨(n, t), hmem, ?_⟩
+  simp only [Spec.dataOf, lookup_abs, habs, Option.map_none, Option.getD_none, Spec.testv]
+  intro hall
+  rw [List.all_eq_true] at hall
+  have := hall (o, l, spec) hv
+  simp only [Spec.read, pread, List.drop_nil, List.take_nil, beq_iff_eq] at this
+  exact hne this.symm
+
+example : Spec.evalTests [] [(3, { testv := [(0, 2, [7, 7])], datav := [(0, [1])], newLength := none })] = false := by decide
+
+/-- shares the request does not name are not touched by its write phase (byte-identical files) -/
+theorem unnamed_shares_untouched_by_writes (nodeid we : Bytes) (b : Bucket) (tw : List (Nat × TW)) (n : Nat)
+    (hn : n ∉ tw.map (·.1)) : lookup (evalWrites nodeid we b tw []).1 n = lookup b n :=
+  evalWrites_untouched nodeid we tw b [] n hn
 
 /-- the storage index used by the negation witness: empty; the request names two new shares, the
     second with a write vector at offset `MAX_SIZE` -/
